@@ -47,6 +47,25 @@ PROPS = {
         "trusted_base": [KERNEL, TIE],
         "assumptions": [],
     },
+    "C15": {
+        "lean": ["TinkVerif.Props.C15"],
+        "theorems": ["TinkVerif.Hmac." + t for t in "expand_prefix expand_length expand_first_block hkdf_limit hkdf_prefix "
+                     "computeHKDF_spec computeHKDF_guard hmac_empty_key_eq_zero_key".split()] + ["TinkVerif.truncating_prf_prefix"],
+        "harness": [{"name": "c15"}],
+        "rule": "",
+        "trusted_base": [KERNEL, TIE],
+        "assumptions": [],
+    },
+    "C08": {
+        "lean": ["TinkVerif.Props.C08"],
+        "theorems": ["TinkVerif.Kwp.stepB_stepF", "TinkVerif.Kwp.Winv_W", "TinkVerif.Kwp.wrappingSize_formula",
+                     "TinkVerif.Kwp.wrappingSize_mult8", "TinkVerif.Siv.xorBE_involutive", "TinkVerif.Siv.decryptRaw_encryptRaw",
+                     "TinkVerif.Siv.decrypt_encrypt", "TinkVerif.Siv.decrypt_iff", "TinkVerif.Siv.decrypt_short"],
+        "harness": [{"name": "c08"}],
+        "rule": "",
+        "trusted_base": [KERNEL, TIE],
+        "assumptions": [],
+    },
 }
 
 NOT_BUILT = {}
